@@ -34,6 +34,18 @@ proof('C05',
       'state, including caches overfilled by load() with empty bookkeeping. Eviction loops carry invariants.',
       'DESIGN.md 5 C05')
 
+proof('C06',
+      'Per wrapper and path, overflow without purge: LRU removes exactly the resident key whose most recent use '
+      '(last occurrence in the recency queue) is oldest; MRU the one used most recently before this call; LFU '
+      'only keys whose use count is <= that of every key kept; RR exactly one resident key; a hit removes '
+      'nothing; survivors keep their values; every use is recorded and the relative recency order of the other '
+      'resident keys is preserved - including through the LRU queue compaction, whose loop carries an inductive '
+      'invariant (order of last occurrences preserved), so the proof is unbounded in queue length and history.',
+      'DESIGN.md 5 C06',
+      BASE_A + ' The victim clauses are stated under Coh (every resident key entered through a call since the '
+      'last clear, i.e. has bookkeeping); for keys brought in by a bulk load() "most recent use" is undefined. '
+      'RR: random.choice is "some element".')
+
 proof('C07',
       'Per wrapper and path, with the archive on: every entry of mem + the new entry is afterwards in mem or in '
       'the archive with its value; archived entries keep their values; the parked archive is untouched. LFU '
@@ -61,7 +73,7 @@ proof('C18',
 for _p, _r in {
     'C03': 'check not built yet',
     'C04': 'check not built yet',
-    'C06': 'check not finished: LRU/MRU policy clauses do not discharge within the solver budget yet',
+
     'C08': 'check not built yet',
     'C09': 'check not built yet',
     'C10': 'check not built yet',
